@@ -511,21 +511,108 @@ def _skip_link_edge(m, lab, dd):
     return (lab == 'F') if e.get('opcode') == '!=' else (lab == 'T')
 
 
+def _flag_consts(cfg):
+    """int/bool locals that are only ever assigned literal constants (flags), by decl id -> name"""
+    from .expr import var_init
+    cand, bad = {}, set()
+    f = cfg.func
+    for n in walk(f.body):
+        k = n.get('kind')
+        if k == 'VarDecl' and qtype(n) in ('int', 'bool', '_Bool'):
+            init = var_init(n)
+            if init is not None and (int_value(init) is None or isinstance(int_value(init), str)):
+                bad.add(n.get('name'))
+            cand[n.get('name')] = n
+        elif k == 'BinaryOperator' and n.get('opcode') == '=':
+            p = access_path(children(n)[0])
+            v = int_value(children(n)[1])
+            if p in cand or p is not None:
+                if v is None or isinstance(v, str):
+                    bad.add(p)
+        elif k == 'CompoundAssignOperator' or (k == 'UnaryOperator' and n.get('opcode') in ('++', '--', '&')):
+            p = access_path(children(n)[0])
+            if p:
+                bad.add(p)
+    return {k for k in cand if k not in bad}
+
+
 def _path_avoiding(cfg, start, pred, skip_edge=None):
-    """Is there a path from `start` to the function exit that never passes a node satisfying pred?"""
+    """Is there a FEASIBLE path from `start` to the function exit that never passes a node satisfying pred?
+    Feasibility: flag locals (only ever assigned literals) are tracked as constants along the path and branches
+    on them are pruned."""
+    from .expr import var_init
+    flags = _flag_consts(cfg)
+
+    def step_env(n, env):
+        if not isinstance(n.ast, dict) or n.kind == 'macro':
+            return env
+        e = dict(env)
+        a = n.ast
+        if a.get('kind') == 'VarDecl' and a.get('name') in flags:
+            init = var_init(a)
+            if init is not None:
+                e[a.get('name')] = int_value(init)
+            return e
+        for x in walk(a):
+            if x.get('kind') == 'BinaryOperator' and x.get('opcode') == '=':
+                p = access_path(children(x)[0])
+                if p in flags:
+                    e[p] = int_value(children(x)[1])
+        return e
+
+    def cond_value(n, env):
+        c = strip_parens(n.ast)
+        if c.get('kind') == 'BinaryOperator' and c.get('opcode') in ('==', '!='):
+            a, b = children(c)
+            p, v = access_path(a), int_value(b)
+            if p is None:
+                p, v = access_path(b), int_value(a)
+            if p in env and v is not None and env[p] is not None:
+                r = (env[p] == v)
+                return r if c.get('opcode') == '==' else (not r)
+            return None
+        p = access_path(c)
+        if p in env and env[p] is not None:
+            return bool(env[p])
+        return None
+
+    # flag constants valid at `start` on every path from the entry (must-constant propagation, join = agreement)
+    IN = {cfg.entry.id: {}}
+    wl = [cfg.entry]
+    while wl:
+        n = wl.pop()
+        out = step_env(n, IN[n.id])
+        for (s2, lab) in n.succs:
+            if s2 is cfg.exit:
+                continue
+            old = IN.get(s2.id)
+            if old is None:
+                IN[s2.id] = dict(out)
+                wl.append(s2)
+            else:
+                new = {k: v for k, v in old.items() if k in out and out[k] == v}
+                if new != old:
+                    IN[s2.id] = new
+                    wl.append(s2)
     seen = set()
-    work = [s for (s, _l) in start.succs]
+    env0 = step_env(start, IN.get(start.id, {}))
+    work = [(s, env0) for (s, _l) in start.succs]
     while work:
-        n = work.pop()
+        n, env = work.pop()
         if n is cfg.exit:
             return True
-        if n.id in seen:
+        key = (n.id, tuple(sorted(env.items())))
+        if key in seen:
             continue
-        seen.add(n.id)
+        seen.add(key)
         if pred(n):
             continue
+        env2 = step_env(n, env)
+        cv = cond_value(n, env2) if n.kind == 'cond' and isinstance(n.ast, dict) else None
         for (s, lab) in n.succs:
             if skip_edge is not None and skip_edge(n, lab):
                 continue
-            work.append(s)
+            if cv is not None and lab in ('T', 'F') and (lab == 'T') != cv:
+                continue
+            work.append((s, env2))
     return False
